@@ -37,50 +37,38 @@ Proof. intros Hw. unfold rename_all_b.
   rewrite (slice_from_after t _ _ Hw N2 eq_refl). cbn [bind].
   apply quoted_safe. apply wf_trim_start, wf_skipn, Hw. Qed.
 
-Lemma kf_rename_skipn : forall t n, kf_C15_rename t = false -> rename_ws_at (skipn n t) = false.
-Proof. induction t as [|a r IH]; intros n H.
-  - cbn [kf_C15_rename] in H. apply orb_false_iff in H as [H _]. destruct n; exact H.
-  - cbn [kf_C15_rename] in H. apply orb_false_iff in H as [H1 H2]. destruct n as [|n]; [exact H1|]. simpl. apply IH, H2. Qed.
-
-(* the restart offset abs_pos + 10 is a boundary when the white space between rename and _all is ASCII *)
-Lemma rename_step t abs : wf t = true ->
-  starts (L "rename") (skipn abs t) = true ->
+(* the repaired restart offset tokens.len() - trimmed.len() + 4 is the boundary just after the matched _all *)
+Lemma rename_step t abs : wf t = true -> abs + 6 <= List.length t ->
   starts (L "_all") (trim_start (skipn (abs + 6) t)) = true ->
-  rename_ws_at (skipn abs t) = false ->
-  abs + 10 <= List.length t /\ boundary t (abs + 10) = true.
-Proof. intros Hw S1 S2 Hk. unfold rename_ws_at in Hk. rewrite S1 in Hk. rewrite skipn_add in Hk.
-  set (after := skipn (abs + 6) t) in *. cbn [andb] in Hk. rewrite S2 in Hk. cbn [andb] in Hk.
-  apply negb_false_iff in Hk. unfold ws_prefix_len in Hk.
-  set (k := List.length after - List.length (trim_start after)) in *.
+  let ss := List.length t - List.length (trim_start (skipn (abs + 6) t)) + 4 in
+  abs + 10 <= ss /\ ss <= List.length t /\ boundary t ss = true.
+Proof. intros Hw Hl S2. set (after := skipn (abs + 6) t) in *.
+  assert (Hla : List.length after = List.length t - (abs + 6)) by (unfold after; apply skipn_length).
+  pose proof (len_trim_start after) as Hlt.
+  set (k := List.length after - List.length (trim_start after)).
   assert (Ht : trim_start after = skipn k after) by apply trim_start_is_skipn.
-  assert (Hb : exists b, nth_error after 3 = Some b /\ is_ascii b = true).
-  { destruct (Nat.le_gt_cases k 3) as [Hle|Hgt].
-    - rewrite Ht in S2. pose proof (starts_nth _ _ (3 - k) S2 ltac:(change (List.length (L "_all")) with 4; lia)) as N.
-      rewrite nth_error_skipn in N. replace (k + (3 - k)) with 3 in N by lia.
-      rewrite N. assert (Hj : 3 - k <= 3) by lia. destruct (3 - k) as [|[|[|[|n]]]]; try (eexists; split; reflexivity). lia.
-    - assert (Hl : 3 < List.length after) by (unfold k in Hgt; lia).
-      destruct (nth_error after 3) as [b|] eqn:Eb; [|apply nth_error_None in Eb; lia].
-      exists b. split; auto. apply (proj1 (forallb_forall _ _) Hk). apply (nth_error_In _ 3).
-      rewrite nth_error_firstn; auto. }
-  destruct Hb as (b & Nb & Ab). unfold after in Nb. rewrite nth_error_skipn in Nb.
-  replace (abs + 10) with (S (abs + 6 + 3)) by lia. split.
-  - apply nth_error_lt in Nb. lia.
-  - exact (boundary_succ t _ _ Hw Nb Ab). Qed.
+  assert (N : nth_error t (abs + 6 + (k + 3)) = Some "l").
+  { pose proof (starts_nth _ _ 3 S2 ltac:(change (List.length (L "_all")) with 4; lia)) as N3.
+    rewrite Ht in N3. rewrite nth_error_skipn in N3. unfold after in N3. rewrite nth_error_skipn in N3. exact N3. }
+  cbv zeta. replace (List.length t - List.length (trim_start after) + 4) with (S (abs + 6 + (k + 3))) by (unfold k; lia).
+  pose proof (nth_error_lt _ _ _ N). split; [lia|]. split; [lia|].
+  exact (boundary_succ t _ _ Hw N eq_refl). Qed.
 
-Lemma rename_go_safe t : wf t = true -> kf_C15_rename t = false ->
+Lemma rename_go_safe t : wf t = true ->
   forall fuel ss, List.length t - ss < fuel -> ss <= List.length t -> boundary t ss = true ->
   safe (rename_go fuel t ss).
-Proof. intros Hw Hk. induction fuel as [|f IH]; intros ss Hf Hl Hb; [lia|].
+Proof. intros Hw. induction fuel as [|f IH]; intros ss Hf Hl Hb; [lia|].
   cbn [rename_go]. rewrite (slice_from_ok _ _ Hl Hb). cbn [bind].
   destruct (find (L "rename") (skipn ss t)) as [pos|] eqn:E1; [|exact I].
   destruct (find_starts _ _ _ E1) as [S1 _]. rewrite skipn_add in S1.
   assert (N5 : nth_error t (ss + pos + 5) = Some "e").
   { rewrite <- nth_error_skipn. rewrite (starts_nth _ _ 5 S1); [reflexivity | change (List.length (L "rename")) with 6; lia]. }
   replace (ss + pos + 6) with (S (ss + pos + 5)) by lia.
-  rewrite (slice_from_after t _ _ Hw N5 eq_refl). cbn [bind].
+  rewrite (slice_from_after t _ _ Hw N5 eq_refl). cbn [bind]. cbv zeta.
   destruct (starts (L "_all") (trim_start (skipn (S (ss + pos + 5)) t))) eqn:E2.
-  - replace (S (ss + pos + 5)) with (ss + pos + 6) in E2 by lia.
-    destruct (rename_step t (ss + pos) Hw S1 E2 (kf_rename_skipn _ _ Hk)) as [H1 H2].
+  - replace (S (ss + pos + 5)) with (ss + pos + 6) in * by lia.
+    pose proof (nth_error_lt _ _ _ N5) as Hlt.
+    destruct (rename_step t (ss + pos) Hw ltac:(lia) E2) as (H1 & H2 & H3).
     apply IH; auto. lia.
   - set (after := skipn (S (ss + pos + 5)) t) in *.
     assert (Hwa : wf after = true) by (apply wf_skipn, Hw).
@@ -90,15 +78,17 @@ Proof. intros Hw Hk. induction fuel as [|f IH]; intros ss Hf Hl Hb; [lia|].
     rewrite (slice_from_after after _ _ Hwa N3 eq_refl). cbn [bind].
     apply quoted_safe. apply wf_trim_start, wf_skipn, Hwa. Qed.
 
-Lemma rename_safe t : wf t = true -> kf_C15_rename t = false -> safe (rename_b t).
-Proof. intros Hw Hk. apply rename_go_safe; auto; [lia|lia]. Qed.
+Lemma rename_safe t : wf t = true -> safe (rename_b t).
+Proof. intros Hw. apply rename_go_safe; auto; [lia|lia]. Qed.
 
-Lemma serde_safe t : wf t = true -> kf_C15_rename t = false -> safe (serde_b t).
-Proof. intros Hw Hk. unfold serde_b. apply safe_bind; [apply rename_safe; auto|]. intros r _.
+Lemma serde_safe t : wf t = true -> safe (serde_b t).
+Proof. intros Hw. unfold serde_b. apply safe_bind; [apply rename_safe; auto|]. intros r _.
   apply safe_bind; [apply rename_all_safe; auto|]. intros ra _. exact I. Qed.
 
 Definition rename_witness : str := L "x = ""rename" ++ map ascii_of_nat [227; 128; 128; 227; 128; 128] ++ L "_all""".
-Lemma rename_refuted : utf8 rename_witness = true /\ kf_C15_rename rename_witness = true /\ serde_b rename_witness = Panic.
+(* the former counterexample: now the loop skips it and finds nothing *)
+Lemma rename_witness_ok : utf8 rename_witness = true /\
+  serde_b rename_witness = Ok {| sa_rename := None; sa_skip := false; sa_rename_all := None |}.
 Proof. vm_compute. auto. Qed.
 
 (* ================= validator_parser.rs ================= *)
@@ -123,9 +113,32 @@ Proof. intros Hw. unfold msg_site.
   destruct (scan q ae' 0 false) as [i|]; [|eexists; split; [reflexivity|discriminate]].
   eexists; split; [reflexivity|]. intros rest i' H. injection H as <- <-. eapply wf_tail; eauto. Qed.
 
-Lemma msg_safe c : wf c = true -> kf_msg_content c = false -> safe (msg_b c).
-Proof. intros Hw Hk. unfold msg_b, kf_msg_content in *. destruct (msg_site_spec c Hw) as (r & E & _). rewrite E in *. cbn [bind].
-  destruct r as [[rest i]|]; [|exact I]. apply negb_false_iff in Hk. unfold slice_to. rewrite Hk. exact I. Qed.
+Lemma scan_nth q : forall s i esc j, scan q s i esc = Some j ->
+  i <= j /\ exists b, nth_error s (j - i) = Some b /\ is_cont b = false.
+Proof. induction s as [|b s IH]; intros i esc j H; [discriminate|]. cbn [scan] in H.
+  assert (REC : forall esc', scan q s (S i) esc' = Some j -> i <= j /\ exists b0, nth_error (b :: s) (j - i) = Some b0 /\ is_cont b0 = false).
+  { intros esc' H'. destruct (IH _ _ _ H') as (Hle & b0 & Hn & Hc). split; [lia|]. exists b0. split; auto.
+    replace (j - i) with (S (j - S i)) by lia. exact Hn. }
+  destruct (is_cont b) eqn:Ec; [eapply REC; eauto|].
+  destruct esc; [eapply REC; eauto|].
+  destruct (Ascii.eqb b "\"); [eapply REC; eauto|].
+  destruct (Ascii.eqb b q); [|eapply REC; eauto].
+  injection H as <-. split; [lia|]. exists b. rewrite Nat.sub_diag. auto. Qed.
+
+Lemma msg_site_index c rest i : msg_site c = Ok (Some (rest, i)) ->
+  exists b, nth_error rest i = Some b /\ is_cont b = false.
+Proof. unfold msg_site. destruct (find (L "message") c); [|discriminate].
+  destruct (slice_from c n); cbn [bind]; try discriminate.
+  destruct (find_char "=" a); [|discriminate]. destruct (slice_from c (n + n0 + 1)); cbn [bind]; try discriminate.
+  destruct (trim_start a0) as [|q ae]; [discriminate|]. destruct (Ascii.eqb q """" || Ascii.eqb q "'"); [|discriminate].
+  destruct (slice_from (q :: ae) 1) as [| |r]; cbn [bind]; try discriminate.
+  destruct (scan q r 0 false) as [j|] eqn:Es; [|discriminate]. intros H. injection H as <- <-.
+  destruct (scan_nth _ _ _ _ _ Es) as (_ & b & Hn & Hc). rewrite Nat.sub_0_r in Hn. eauto. Qed.
+
+Lemma msg_safe c : wf c = true -> safe (msg_b c).
+Proof. intros Hw. unfold msg_b. destruct (msg_site_spec c Hw) as (r & E & _). rewrite E. cbn [bind].
+  destruct r as [[rest i]|]; [|exact I]. destruct (msg_site_index _ _ _ E) as (b & Hn & Hc).
+  rewrite (slice_to_at _ _ _ Hn Hc). exact I. Qed.
 
 Lemma bound_safe kw k0 kw' c : kw = k0 :: kw' -> is_cont k0 = false -> wf c = true -> safe (bound_b kw c).
 Proof. intros Hkw Hc Hw. unfold bound_b.
@@ -160,24 +173,27 @@ Proof. intros Hkw Hc Hw. unfold content_b.
   - replace (st + ps + 1) with (S (st + ps)) by lia. exact (boundary_succ t _ _ Hw N2 eq_refl).
   - exact (boundary_at t _ _ N3 eq_refl). Qed.
 
-Lemma con_safe kw k0 kw' t : kw = k0 :: kw' -> is_cont k0 = false -> wf t = true ->
-  kf_msg_kw kw t = false -> safe (con_b kw t).
-Proof. intros Hkw Hc Hw Hk. unfold con_b, kf_msg_kw in *.
-  destruct (contains kw t); [|exact I]. cbn [negb andb] in *.
-  destruct (content_spec kw k0 kw' t Hkw Hc Hw) as (r & E & Hr). rewrite E in *. cbn [bind].
+Lemma con_safe kw k0 kw' t : kw = k0 :: kw' -> is_cont k0 = false -> wf t = true -> safe (con_b kw t).
+Proof. intros Hkw Hc Hw. unfold con_b.
+  destruct (contains kw t); [|exact I]. cbn [negb].
+  destruct (content_spec kw k0 kw' t Hkw Hc Hw) as (r & E & Hr). rewrite E. cbn [bind].
   destruct r as [c|]; [|exact I]. pose proof (Hr c eq_refl) as Hwc.
   apply safe_bind; [apply (bound_safe (L "min") "m" (L "in")); [reflexivity|reflexivity|exact Hwc]|]. intros mn _.
   apply safe_bind; [apply (bound_safe (L "max") "m" (L "ax")); [reflexivity|reflexivity|exact Hwc]|]. intros mx _.
   apply safe_bind; [apply msg_safe; auto|]. intros msg _. exact I. Qed.
 
-Lemma validator_safe t : wf t = true -> kf_C15_msg t = false -> safe (validator_b t).
-Proof. intros Hw Hk. unfold kf_C15_msg in Hk. apply orb_false_iff in Hk as [H1 H2]. unfold validator_b.
+Lemma validator_safe t : wf t = true -> safe (validator_b t).
+Proof. intros Hw. unfold validator_b.
   apply safe_bind; [apply (con_safe (L "length") "l" (L "ength")); auto|]. intros l _.
   apply safe_bind; [apply (con_safe (L "range") "r" (L "ange")); auto|]. intros r _. exact I. Qed.
 
 (* the length attribute with min = 1 and the one-character message e-acute, as the token printer prints it *)
 Definition msg_witness : str := L "length (min = 1 , message = """ ++ map ascii_of_nat [195; 169] ++ L """)".
-Lemma message_refuted : utf8 msg_witness = true /\ kf_C15_msg msg_witness = true /\ validator_b msg_witness = Panic.
+(* the former counterexample: the whole message is returned *)
+Lemma message_witness_ok : utf8 msg_witness = true /\
+  validator_b msg_witness = Ok {| va_email := false; va_url := false;
+      va_length := Some {| v_min := Some (L "1"); v_max := None; v_msg := Some (map ascii_of_nat [195; 169]) |};
+      va_range := None |}.
 Proof. vm_compute. auto. Qed.
 
 (* ================= naming ================= *)
@@ -208,18 +224,24 @@ Proof. induction s as [|c s IH]; intros cap Hw; [reflexivity|]. cbn [pascal]. po
     destruct s as [|x s']; [discriminate|]. simpl in Hh. rewrite (wf_head _ _ _ Hw) in Hh; congruence. }
   destruct cap; apply Hgen; [apply up_ascii|reflexivity]. Qed.
 
-Lemma camel_safe s : wf s = true -> kf_C15_camel s = false -> safe (camel_b s).
-Proof. intros Hw Hk. unfold camel_b, kf_C15_camel in *. pose proof (wf_pascal s true Hw) as Hp.
-  destruct (pascal true s) as [|c r]; [discriminate|]. apply negb_false_iff in Hk.
-  rewrite (slice_to_ok (c :: r) 1); [|simpl; lia|exact (boundary_succ (c :: r) 0 c Hp eq_refl Hk)]. cbn [bind].
-  rewrite (slice_from_ok (c :: r) 1); [exact I|simpl; lia|exact (boundary_succ (c :: r) 0 c Hp eq_refl Hk)]. Qed.
-Lemma naming_safe r s : wf s = true -> (r = RCamel -> kf_C15_camel s = false) -> safe (apply_to_field_b r s).
-Proof. intros Hw Hk. destruct r; try exact I. apply camel_safe; auto. Qed.
+Lemma naming_safe r s : safe (naming_b r s).
+Proof. destruct r; try exact I. unfold naming_b. destruct (pascal true s); exact I. Qed.
 Lemma event_fn_safe s : safe (event_fn_b s).
 Proof. exact I. Qed.
-Lemma camel_refuted :
-  camel_b (L "__") = Panic /\ kf_C15_camel (L "__") = true /\
-  (let ete := map ascii_of_nat [195; 169; 116; 195; 169] in utf8 ete = true /\ camel_b ete = Panic /\ kf_C15_camel ete = true).
+Lemma naming_witness_ok :
+  naming_b RCamel (L "__") = Ok (L "__") /\
+  (let ete := map ascii_of_nat [195; 169; 116; 195; 169] in utf8 ete = true /\ naming_b RCamel ete = Ok ete).
+Proof. vm_compute. auto. Qed.
+
+(* apply_to_variant as called by compute_variant_name: only CamelCase slices *)
+Lemma variant_safe r s : wf s = true -> (r = RCamel -> kf_C15_variant s = false) -> safe (apply_to_variant_b r s).
+Proof. intros Hw Hk. destruct r; try exact I. specialize (Hk eq_refl). unfold apply_to_variant_b, variant_camel_b, kf_C15_variant in *.
+  destruct s as [|c r]; [discriminate|]. apply negb_false_iff in Hk.
+  rewrite (slice_to_ok (c :: r) 1); [|simpl; lia|exact (boundary_succ (c :: r) 0 c Hw eq_refl Hk)]. cbn [bind].
+  rewrite (slice_from_ok (c :: r) 1); [exact I|simpl; lia|exact (boundary_succ (c :: r) 0 c Hw eq_refl Hk)]. Qed.
+Lemma variant_refuted :
+  let etat := map ascii_of_nat [195; 137; 116; 97; 116] in
+  utf8 etat = true /\ kf_C15_variant etat = true /\ apply_to_variant_b RCamel etat = Panic.
 Proof. vm_compute. auto. Qed.
 
 (* ================= type_resolver.rs ================= *)
@@ -395,6 +417,10 @@ Proof. intros [Hw Hl] Hf. unfold pair_b. destruct (find_char "," inner) as [c|] 
   intros x _. apply safe_bind; [|intros; exact I].
   apply Hf, piece_trim. split; [apply wf_skipn, Hw|]. rewrite skipn_length. lia. Qed.
 
+Lemma result_names_safe (f : str -> outcome (list str)) s inner : piece s inner ->
+  (forall x, piece s x -> safe (f x)) -> safe (result_names_b f inner).
+Proof. intros Hp Hf. unfold result_names_b. destruct (find_char "," inner); [eapply pair_safe; eauto|apply Hf, Hp]. Qed.
+
 Lemma trim_amps_skipn : forall s, exists k, trim_amps s = skipn k s /\ (starts (L "&") s = true -> 1 <= k).
 Proof. induction s as [|b s IH]; [exists 0; split; [reflexivity|discriminate]|]. cbn [trim_amps].
   destruct (Ascii.eqb b "&") eqn:E.
@@ -417,7 +443,9 @@ Proof. induction fuel as [|f IH]; intros s0 Hw0 Hf; [lia|]. cbn [names_go].
   assert (AMP : starts (L "&") s = true -> safe (names_go f (trim_amps s))).
   { intros Ea. destruct (trim_amps_skipn s) as (k & -> & Hk). specialize (Hk Ea). pose proof (starts_len _ _ Ea) as Hls.
     change (List.length (L "&")) with 1 in Hls. apply REC. split; [apply wf_skipn, Hw|]. rewrite skipn_length. lia. }
-  destruct (starts (L "Result<") s); [apply W1; simpl; lia|].
+  destruct (starts (L "Result<") s).
+  { destruct (strip_wrapped (L "Result<") s) as [inner|] eqn:E; [|exact I].
+    eapply result_names_safe; [eapply strip_wrapped_spec; eauto; simpl; lia|exact REC]. }
   destruct (starts (L "Option<") s); [apply W2; simpl; lia|].
   destruct (starts (L "Vec<") s); [apply W2; simpl; lia|].
   destruct (starts (L "HashMap<") s) eqn:Eh; cbn [orb]; [apply W1; simpl; lia|].
@@ -477,17 +505,23 @@ Proof. unfold quoted_b. destruct (find_char """" s); [|discriminate].
   destruct (find_char """" a); [|discriminate].
   pose proof (slice_nf s (n + 1) (n + 1 + n0)). destruct (slice s (n + 1) (n + 1 + n0)); cbn [bind]; try congruence; discriminate. Qed.
 
+Lemma slice_from_inv s a x : slice_from s a = Ok x -> x = skipn a s /\ a <= List.length s.
+Proof. unfold slice_from. destruct (a <=? List.length s)%nat eqn:E; [|discriminate]. destruct (boundary s a); [|discriminate].
+  cbn [andb]. intros H. injection H as <-. apply Nat.leb_le in E. auto. Qed.
+
 Lemma rename_go_fuel t : forall fuel ss, List.length t - ss < fuel -> rename_go fuel t ss <> OutOfFuel.
 Proof. induction fuel as [|f IH]; intros ss Hf; [lia|]. cbn [rename_go]. unfold slice_from at 1.
   destruct ((ss <=? List.length t)%nat && boundary t ss) eqn:E; [|discriminate]. cbn [bind].
   apply andb_true_iff in E as [E _]. apply Nat.leb_le in E.
   destruct (find (L "rename") (skipn ss t)) as [pos|] eqn:E1; [|discriminate].
-  destruct (find_starts _ _ _ E1) as [S1 _]. apply starts_len in S1. change (List.length (L "rename")) with 6 in S1.
-  rewrite !skipn_length in S1.
-  pose proof (slice_from_nf t (ss + pos + 6)) as NF. destruct (slice_from t (ss + pos + 6)) as [| |after]; cbn [bind]; try congruence; try discriminate.
-  destruct (starts (L "_all") (trim_start after)); [apply IH; lia|].
-  destruct (find_char "=" after) as [e|]; [|discriminate].
-  pose proof (slice_from_nf after (e + 1)) as NF2. destruct (slice_from after (e + 1)); cbn [bind]; try congruence; try discriminate.
-  apply quoted_nf. Qed.
+  pose proof (slice_from_nf t (ss + pos + 6)) as NF.
+  destruct (slice_from t (ss + pos + 6)) as [| |after] eqn:Es; cbn [bind]; try congruence; try discriminate.
+  destruct (slice_from_inv _ _ _ Es) as [-> Hle]. cbv zeta.
+  destruct (starts (L "_all") (trim_start (skipn (ss + pos + 6) t))).
+  - apply IH. pose proof (len_trim_start (skipn (ss + pos + 6) t)) as Hlt. rewrite skipn_length in Hlt. lia.
+  - destruct (find_char "=" (skipn (ss + pos + 6) t)) as [e|]; [|discriminate].
+    pose proof (slice_from_nf (skipn (ss + pos + 6) t) (e + 1)) as NF2.
+    destruct (slice_from (skipn (ss + pos + 6) t) (e + 1)); cbn [bind]; try congruence; try discriminate.
+    apply quoted_nf. Qed.
 Lemma rename_nf t : rename_b t <> OutOfFuel.
 Proof. apply rename_go_fuel. lia. Qed.
